@@ -92,6 +92,26 @@ def run(ctx):
             lines.append(f"foreign {i} 0 {len(unk)} {u} {values.render(a)}")
             meta.append((i, a, False, unk))
             absent += 1
+    # long bytes / records payloads (past the 16-bit mark) in flexible classes, with and without
+    # unknown entries around them
+    import dataclasses as _dcb
+    nbig = 0
+    for i, a, obj in list(insts):
+        c = cl.cls(i)
+        if not c.__flexible__ or nbig >= (40 if thorough else 6):
+            continue
+        bf = [f for f in _dcb.fields(c) if f.metadata.get("kafka_type") in ("bytes", "records")
+              and isinstance(getattr(obj, f.name), (bytes, type(None)))]
+        if not bf:
+            continue
+        f = bf[nbig % len(bf)]
+        w = _dcb.replace(obj, **{f.name: bytes([nbig % 251 + 1]) * (32767, 32768, 70001)[nbig % 3]})
+        a2 = values.abstract(w)
+        sd, unk = pattern(rng)
+        u = " ".join(f"{t} {values.hex_tok(p)}" for t, p in unk)
+        lines.append(f"foreign {i} {1 if sd else 0} {len(unk)} {u} {values.render(a2)}".replace("  ", " "))
+        meta.append((i, a2, sd, unk))
+        nbig += 1
     # very many unknown tagged fields (the count of a tagged section is a varint, not a byte): 128+
     # unknown entries at every level, on classes that contain arrays of structures
     import typing as _ty
